@@ -142,6 +142,17 @@ impl Sym {
         }
     }
 
+    /// For local writes: which operation (the class alone says only `local_write`).
+    pub fn class_detail(self) -> &'static str {
+        match self {
+            Sym::LUpd(..) => "lupd",
+            Sym::LRem(..) => "lrem",
+            Sym::LClear => "lclear",
+            Sym::LSet(..) => "lset",
+            other => other.class(),
+        }
+    }
+
     pub fn is_local(self) -> bool {
         matches!(self, Sym::LUpd(..) | Sym::LRem(..) | Sym::LClear | Sym::LSet(..))
     }
@@ -305,11 +316,15 @@ pub struct Ref {
     pub terminated: bool,
     /// Number of inputs seen after termination.
     pub post_term: usize,
+    /// Second reference (used only to classify a known deviation): local map writes are folded
+    /// into the replica, silently, whenever the downlink is linked - what the client map downlink
+    /// evidently intends (known finding `cause=local_write`).
+    pub fold_local: bool,
 }
 
 impl Ref {
     pub fn new(kind: Kind, cfg: Cfg) -> Ref {
-        Ref { kind, cfg, link: Link::Unlinked, map: M::new(), val: None, terminated: false, post_term: 0 }
+        Ref { kind, cfg, link: Link::Unlinked, map: M::new(), val: None, terminated: false, post_term: 0, fold_local: false }
     }
 
     fn removals(&mut self, keys: Vec<i32>, dispatch: bool) -> Vec<Vec<Cb>> {
@@ -355,6 +370,18 @@ impl Ref {
             return legal(vec![vec![]]);
         }
         if s.is_local() {
+            if self.fold_local && self.link != Link::Unlinked {
+                match s {
+                    Sym::LUpd(k, x) => {
+                        self.map.insert(k, x);
+                    }
+                    Sym::LRem(k) => {
+                        self.map.remove(&k);
+                    }
+                    Sym::LClear => self.map.clear(),
+                    _ => {}
+                }
+            }
             return legal(vec![vec![]]);
         }
         let dispatch = self.link == Link::Synced || self.cfg.ewns;
@@ -481,7 +508,13 @@ pub struct Checked {
 
 /// Compare one run with the reference. `tolerant` accepts `Redundant` inputs (client state machine).
 pub fn check(kind: Kind, cfg: Cfg, imp: Imp, seq: &[Sym], out: &RunOut, tolerant: bool) -> Checked {
+    check_with(kind, cfg, imp, seq, out, tolerant, false)
+}
+
+/// `fold_local`: compare with the second reference (see `Ref::fold_local`).
+pub fn check_with(kind: Kind, cfg: Cfg, imp: Imp, seq: &[Sym], out: &RunOut, tolerant: bool, fold_local: bool) -> Checked {
     let mut r = Ref::new(kind, cfg);
+    r.fold_local = fold_local;
     let mut c = Checked { legal: true, redundant: false, illegal_at: None, mismatch: None, compared_states: 0, terminated: false, post_term: 0 };
     if let Some(p) = &out.panic {
         c.mismatch = Some(Mismatch {
